@@ -56,6 +56,26 @@ Assemble(leaves, HasMutexApi) ==
   AsmFrom(leaves, 1, [tab |-> EmptyTab, cur |-> 0, err |-> [k |-> "ok"]], HasMutexApi)
 
 (***************************************************************************)
+(* The statement of C14, second sentence, independent of the order in      *)
+(* which push() happens to test things: the set of reasons for which a     *)
+(* clause list must be rejected.  Construction must fail iff the set is    *)
+(* non-empty, with (any) one of its members; which one is reported when    *)
+(* several apply is an accident of the implementation.                     *)
+(***************************************************************************)
+Offences(leaves, HasMutexApi) ==
+  { [k |-> "EmptyStub", m |-> leaves[i].m] : i \in { j \in 1..Len(leaves) : Len(leaves[j].pats) = 0 } }
+  \cup { [k |-> "ModeConflict", m |-> leaves[i].m] :
+            i \in { j \in 1..Len(leaves) : Len(leaves[j].pats) > 0 /\
+                      \E h \in 1..Len(leaves) : Len(leaves[h].pats) > 0 /\ leaves[h].m = leaves[j].m /\ Mode(leaves[h].form) # Mode(leaves[j].form) } }
+  \cup { [k |-> "NoMutexApi", m |-> leaves[i].m] :
+            i \in { j \in 1..Len(leaves) : ~HasMutexApi /\
+                      \E pj \in 1..Len(leaves[j].pats) : \E si \in 1..Len(leaves[j].pats[pj].chain) : SingleUse(leaves[j].form, si, leaves[j].pats[pj].chain[si]) } }
+\* push()'s verdict is one of the offences, and "ok" exactly when there is none
+AssembleAgrees(leaves, HasMutexApi) ==
+  LET e == Assemble(leaves, HasMutexApi).err  o == Offences(leaves, HasMutexApi) IN
+  IF o = {} THEN e.k = "ok" ELSE e \in o
+
+(***************************************************************************)
 (* The statement of C04: the flattened expected sequence.                  *)
 (***************************************************************************)
 RECURSIVE Rep(_, _)
